@@ -296,7 +296,19 @@ func genHistory(r *corr.Run, w *world, df, thr, steps int, freshOnly bool) []hop
 	}
 	// width-safety is monotone (a subset of a safe set is safe): check the whole universe once
 	allSafe := widthSafe(w.hashesOf(all), df, thr)
-	safe := func(c contents) bool { return allSafe || (len(w.ids) <= 64 && widthSafe(w.hashesOf(c), df, thr)) }
+	safe := func(c contents) bool {
+		if allSafe {
+			return true
+		}
+		if allowNarrow {
+			// since fix-width a range narrower than df simply stays undivided: such contents are legal
+			if len(w.ids) <= 64 && !widthSafe(w.hashesOf(c), df, thr) {
+				r.Count("gen.narrow-over-threshold")
+			}
+			return true
+		}
+		return len(w.ids) <= 64 && widthSafe(w.hashesOf(c), df, thr)
+	}
 	present := func() []int { return c.keys() }
 	for len(ops) < steps {
 		var h hop
@@ -786,8 +798,8 @@ func Run(r *corr.Run) {
 		"A case is non-trivial when it has >= 2 elements (C07) / >= 3 ops (C08); distinct = distinct op sequences")
 	m := newModelSession(r)
 	defer m.close()
+	exhibitWidth(r)
 	if prop == "" || prop == "C07" {
-		exhibitWidth(r)
 		runC07(r, m, prop == "C07")
 	}
 	if prop == "" || prop == "C08" {
@@ -810,6 +822,10 @@ func pickParams(r *corr.Run) (df, thr int) {
 func runC07(r *corr.Run, m *modelSession, only bool) {
 	// (i) exhaustive block over a tiny universe
 	exhaustiveC07(r, m)
+	// (i') fix-width: universes concentrated in ranges of width 1, 2, df-1, df, df+1
+	for k := 0; r.TimeLeft() && k < r.Pick(250, 4000); k++ {
+		randomCaseC07(r, m, "narrow")
+	}
 	// (iii) larger random sets, oracle only
 	m.pause()
 	for k := 0; r.TimeLeft() && k < r.Pick(12, 120); k++ {
@@ -825,7 +841,7 @@ func runC07(r *corr.Run, m *modelSession, only bool) {
 		for i := r.Intn(30); i > 0; i-- {
 			B = related(r, w, B)
 		}
-		if !widthSafe(w.hashesOf(A), df, thr) || !widthSafe(w.hashesOf(B), df, thr) {
+		if excludeNarrow(r, w.hashesOf(A), df, thr) || excludeNarrow(r, w.hashesOf(B), df, thr) {
 			r.Count("gen.width-excluded")
 			continue
 		}
@@ -835,48 +851,55 @@ func runC07(r *corr.Run, m *modelSession, only bool) {
 	m.resume()
 	// (ii) guard-directed random cases
 	for k := 0; r.TimeLeft() && k < r.Pick(6000, 120000); k++ {
-		df, thr := pickParams(r)
-		kind := worldKinds[r.Intn(len(worldKinds))]
-		w := genWorld(r, kind, 2+r.Intn(14), df)
-		if len(w.ids) == 0 {
-			continue
-		}
-		r.Count("c07.world." + kind)
-		var opsA, opsB []hop
-		mode := r.Intn(10)
-		switch {
-		case mode < 4: // fresh on both sides
-			A := randContents(r, w, 30+r.Intn(60))
-			B := related(r, w, A)
-			if r.Chance(30) {
-				B = randContents(r, w, 30+r.Intn(60))
-			}
-			if r.Chance(10) {
-				A, B = B, contents{}
-			}
-			if r.Chance(10) {
-				B = A.clone()
-			}
-			if !widthSafe(w.hashesOf(A), df, thr) || !widthSafe(w.hashesOf(B), df, thr) {
-				r.Count("gen.width-excluded")
-				continue
-			}
-			oa, ob := r.Perm(len(w.ids)), r.Perm(len(w.ids))
-			opsA = freshOps(w, A, filterIn(oa, A))
-			opsB = freshOps(w, B, filterIn(ob, B))
-			r.Count("c07.build.fresh")
-		default: // histories
-			opsA = genHistory(r, w, df, thr, 1+r.Intn(12), mode < 6)
-			if r.Chance(50) {
-				// b continues from a's history: mostly equal contents with a few differences
-				opsB = append(append([]hop{}, opsA...), genTail(r, w, df, thr, replay(w, opsA), r.Intn(4))...)
-			} else {
-				opsB = genHistory(r, w, df, thr, 1+r.Intn(12), mode < 6)
-			}
-			r.Count("c07.build.history")
-		}
-		caseC07(r, m, w, df, thr, opsA, opsB, variants)
+		randomCaseC07(r, m, "")
 	}
+}
+
+// randomCaseC07 runs one guard-directed random case (kind "" = random universe kind)
+func randomCaseC07(r *corr.Run, m *modelSession, kind string) {
+	df, thr := pickParams(r)
+	if kind == "" {
+		kind = worldKinds[r.Intn(len(worldKinds))]
+	}
+	w := genWorld(r, kind, 2+r.Intn(14), df)
+	if len(w.ids) == 0 {
+		return
+	}
+	r.Count("c07.world." + kind)
+	var opsA, opsB []hop
+	mode := r.Intn(10)
+	switch {
+	case mode < 4: // fresh on both sides
+		A := randContents(r, w, 30+r.Intn(60))
+		B := related(r, w, A)
+		if r.Chance(30) {
+			B = randContents(r, w, 30+r.Intn(60))
+		}
+		if r.Chance(10) {
+			A, B = B, contents{}
+		}
+		if r.Chance(10) {
+			B = A.clone()
+		}
+		if excludeNarrow(r, w.hashesOf(A), df, thr) || excludeNarrow(r, w.hashesOf(B), df, thr) {
+			r.Count("gen.width-excluded")
+			return
+		}
+		oa, ob := r.Perm(len(w.ids)), r.Perm(len(w.ids))
+		opsA = freshOps(w, A, filterIn(oa, A))
+		opsB = freshOps(w, B, filterIn(ob, B))
+		r.Count("c07.build.fresh")
+	default: // histories
+		opsA = genHistory(r, w, df, thr, 1+r.Intn(12), mode < 6)
+		if r.Chance(50) {
+			// b continues from a's history: mostly equal contents with a few differences
+			opsB = append(append([]hop{}, opsA...), genTail(r, w, df, thr, replay(w, opsA), r.Intn(4))...)
+		} else {
+			opsB = genHistory(r, w, df, thr, 1+r.Intn(12), mode < 6)
+		}
+		r.Count("c07.build.history")
+	}
+	caseC07(r, m, w, df, thr, opsA, opsB, variants)
 }
 
 func filterIn(order []int, c contents) []int {
@@ -907,7 +930,7 @@ func genTail(r *corr.Run, w *world, df, thr int, c contents, n int) []hop {
 		} else {
 			nc[h.els[0][0]] = h.els[0][1]
 		}
-		if !widthSafe(w.hashesOf(nc), df, thr) {
+		if excludeNarrow(r, w.hashesOf(nc), df, thr) {
 			continue
 		}
 		c = nc
@@ -955,7 +978,7 @@ func exhaustiveC07(r *corr.Run, m *modelSession) {
 		for i, A := range maps {
 			for j := (i * 7) % stride; j < len(maps); j += stride {
 				B := maps[j]
-				if !widthSafe(w.hashesOf(A), df, thr) || !widthSafe(w.hashesOf(B), df, thr) {
+				if excludeNarrow(r, w.hashesOf(A), df, thr) || excludeNarrow(r, w.hashesOf(B), df, thr) {
 					continue
 				}
 				if !r.TimeLeft() {
